@@ -115,3 +115,14 @@ V('C08', 'sql-dml-returning-loses-modifications', 'edb/server/compiler/sql.py', 
   '        if isinstance(stmt, pgast.DMLQuery):\n            unit.capabilities |= enums.Capability.MODIFICATIONS\n', '        if isinstance(stmt, pgast.DMLQuery) and not stmt.returning_list:\n            unit.capabilities |= enums.Capability.MODIFICATIONS\n', 'C08.R6', '_compile_sql:')
 V('C08', 'declared-volatile-never-checked', 'edb/schema/functions.py', 'edb.schema.functions.FunctionCommand.compile_this_function',
   '        if spec_volatility is not None and spec_volatility < ir.volatility:', '        if (spec_volatility is not None and not spec_volatility.is_volatile()\n                and spec_volatility < ir.volatility):', 'C08.R6', 'declared-below-inferred-rejected')
+
+# round 4
+V('C08', 'volatility-memo-keeps-provisional', 'edb/edgeql/compiler/inference/volatility.py',
+  'edb.edgeql.compiler.inference.volatility._infer_volatility',
+  'env.inferred_volatility[ir] = result', 'env.inferred_volatility.setdefault(ir, result)',
+  'C08.R7', 'final-result-overwrites')
+V('C08', 'sql-transaction-capability-dropped', 'edb/server/compiler/sql.py',
+  'edb.server.compiler.sql._compile_sql',
+  '''        if unit.tx_action is not None:
+            unit.capabilities |= enums.Capability.TRANSACTION
+''', '', 'C08.R7', 'transaction-capability-follows-tx_action')
